@@ -315,7 +315,7 @@ def run(ctx):
         "Non-trivial: (a) split strictly inside, seed != 0, >= 2 accepted moves; (b) >= 1 restart with recorded in-flight jobs; (c) seed != 0 and >= 2 accepted "
         "moves; (d) every pair of completed runs; (e) every explored state. Distinct = digest."
     )
-    ctx.assumptions = ["order parameter values are integers (exact at the six decimals of order.txt)",
+    ctx.assumptions = ["order parameter values are integers or half-integers (translated copies of the lattice), exact at the six decimals of order.txt",
                        "TurtleMD part: the repository's double-well example with an order parameter rounded to six decimals (the statement's scope condition), allowmaxlength=true"]
     run_property(ctx, "split", split_cases, body_split, ctx.pick(300, 4000), shards=ctx.procs, shrink=not ctx.quick)
     run_property(ctx, "kill", kill_cases, body_kill, ctx.pick(400, 5000), shards=ctx.procs, shrink=not ctx.quick)
